@@ -26,8 +26,13 @@ func runRoute(op string) (out string) {
 		}
 	}()
 	ks, q := "", ""
+	version := primitive.ProtocolVersion4
 	for _, t := range strings.Fields(op) {
 		switch {
+		case strings.HasPrefix(t, "V:"):
+			var v int
+			fmt.Sscan(t[2:], &v)
+			version = primitive.ProtocolVersion(v)
 		case strings.HasPrefix(t, "T:"):
 		case strings.HasPrefix(t, "K:"):
 			if t[2:] != "-" {
@@ -39,18 +44,18 @@ func runRoute(op string) (out string) {
 			q = string(b)
 		}
 	}
-	env, err := e2e.Start(e2e.Options{Hosts: 1})
+	env, err := e2e.Start(e2e.Options{Hosts: 1, MaxVersion: primitive.ProtocolVersionDse2, Version: primitive.ProtocolVersion4, BackendMax: primitive.ProtocolVersionDse2})
 	if err != nil {
 		return "env-error"
 	}
 	defer env.Close()
 	env.Cluster.Handler = func(rq *fakecass.Request) fakecass.Response {
 		if rq.Header.OpCode == primitive.OpCodePrepare {
-			return fakecass.Response{Kind: fakecass.RespMsg, Msg: &message.PreparedResult{PreparedQueryId: pid(q)}}
+			return fakecass.Response{Kind: fakecass.RespMsg, Msg: &message.PreparedResult{PreparedQueryId: pid(q), ResultMetadataId: pid(q + "m")}}
 		}
 		return fakecass.Response{Kind: fakecass.RespMsg, Msg: &message.VoidResult{}}
 	}
-	cl, err := env.Dial(primitive.ProtocolVersion4, "")
+	cl, err := env.Dial(version, "")
 	if err != nil {
 		return "dial-error"
 	}
@@ -79,7 +84,7 @@ func runRoute(op string) (out string) {
 	er := "skip"
 	if prep != nil && prep.Frame != nil {
 		if p, ok := prep.Frame.Body.Message.(*message.PreparedResult); ok {
-			er, _ = observe(&message.Execute{QueryId: p.PreparedQueryId, Options: opts})
+			er, _ = observe(&message.Execute{QueryId: p.PreparedQueryId, ResultMetadataId: p.ResultMetadataId, Options: opts})
 		}
 	}
 	return fmt.Sprintf("query=%s prepare=%s execute=%s", qr, pr, er)
@@ -105,6 +110,7 @@ func genRoute(e *emitter, r *rng.R, n int, tier string) {
 			k = hx(x.ks)
 		}
 		ops = append(ops, fmt.Sprintf("T:%d K:%s %s", b2i(x.local), k, hx(x.q)))
+		ops = append(ops, fmt.Sprintf("V:5 T:%d K:%s %s", b2i(x.local), k, hx(x.q)), fmt.Sprintf("V:66 T:%d K:%s %s", b2i(x.local), k, hx(x.q)))
 	}
 	for i := 0; i < n; i++ {
 		rr := r.Fork(uint64(i))
@@ -121,7 +127,7 @@ func genRoute(e *emitter, r *rng.R, n int, tier string) {
 			k = hx(ks)
 		}
 		q := varyCaseWs(rr, "SELECT "+rr.Pick([]string{"*", "key", "count(*)"})+" FROM "+qual+tbl)
-		ops = append(ops, fmt.Sprintf("T:%d K:%s %s", b2i(ksSys && tblSys), k, hx(q)))
+		ops = append(ops, fmt.Sprintf("V:%d T:%d K:%s %s", []int{3, 4, 4, 5, 65, 66}[rr.Intn(6)], b2i(ksSys && tblSys), k, hx(q)))
 	}
 	e.emitAll(ops, 12)
 }
